@@ -20,6 +20,8 @@ STREAMS = {
     "junk": {"relevant": True, "desc": "arbitrary bytes (small alphabets exhaustively, random)"},
     "views": {"relevant": True, "desc": "settings_map for 3x2x2 argument combinations + the 4 cached views, pretty functions stubbed by a tagging function"},
     "real": {"relevant": True, "desc": "the same 16 mappings with the real pretty functions, pretty results masked"},
+    "hist": {"relevant": True, "desc": "sequences of accesses (4 cached properties, 12 settings_map combinations, setting_enums, "
+                                       "max_setting_enum, settings_tuple) on ONE BeaconConfig object; every step also compared with a fresh object"},
 }
 TRUSTED = [
     "tools/harness/c02.py generators, adapters, reference TLV decoder; line protocol parsing/rendering in lean/CsVerif/Driver/C02.lean",
@@ -32,7 +34,8 @@ ASSUMPTIONS = [
     "pretty functions are an abstract parameter: stream `views` replaces every value of SETTING_TO_PRETTYFUNC by a tagging stub "
     "(keys/dispatch untouched), stream `real` keeps the real functions and compares only keys, order and non-pretty values; "
     "inputs of `real` on which a real pretty function raises are filtered out (their content is C03's subject)",
-    "the per-instance caching of the four views is not modelled (C14)",
+    "the per-instance caching of the four views is modelled by four optional cache attributes (stream `hist`, theorem "
+    "views_history_independent); mutation of the returned objects by callers is C14's subject",
 ]
 RULE = ("distinct = hash of (stream, input line); non-trivial = the real code returned at least one setting "
         "(parse/trunc/ua/junk) resp. at least one non-empty mapping (views/real)")
@@ -315,6 +318,49 @@ def friendly_settings(rng):
 
 SMALL_ALPHABET = [0, 1, 3, 9, 36, 128]
 
+N_OPS = 19  # 0-3 cached properties, 4-15 settings_map combinations, 16 setting_enums, 17 max_setting_enum, 18 settings_tuple
+MAP_SPECS = [(it, p, q) for it in ("name", "const", "enum") for p in (False, True) for q in (False, True)]
+
+
+def gen_hist_block(rng):
+    """A block on which parse/pretty/index_type all make a visible difference: SHORT/INT records with nominal and
+    off-nominal lengths, a PTR with a pretty function, duplicates, index 36 of both types, unknown indices."""
+    nz = lambda n: bytes(rng.randrange(1, 256) for _ in range(n))  # noqa: E731
+    must = [
+        (rng.choice([1, 2, 5, 37]), 1, 2, nz(2)),
+        (rng.choice([3, 4, 40, 45]), 2, 4, nz(4)),
+        (rng.choice([14, 53, 8, 9, 11]), 3, *(lambda v: (len(v), v))(nz(rng.choice([1, 3, 8, 16])))),
+    ]
+    pool = [
+        (2, 1, 1, nz(1)), (2, 1, 3, nz(3)), (5, 1, 0, b""), (6, 1, 4, nz(4)),
+        (3, 2, 3, nz(3)), (4, 2, 5, nz(5)), (20, 2, 2, nz(2)), (45, 2, 0, b""),
+        (36, 1, 2, nz(2)), (36, 3, 4, nz(4)), (36, 2, 4, nz(4)), (36, 3, 0, b""),
+        (75, 3, 2, nz(2)), (75, 1, 2, nz(2)), (300, 2, 4, nz(4)), (65535, 1, 2, nz(2)), (0x124, 1, 2, nz(2)),
+        (16, 1, 2, nz(2)), (17, 1, 2, nz(2)), (48, 1, 2, nz(2)), (19, 2, 4, nz(4)), (7, 3, 9, nz(9)),
+        (9, 3, 128, nz(128)), (1, 0, 2, nz(2)), (1, 4, 2, nz(2)),
+    ]
+    chosen = must + rng.sample(pool, rng.randrange(0, 8))
+    for _ in range(rng.randrange(0, 3)):  # duplicates: same index, other type/value
+        i, t, ln, v = rng.choice(chosen)
+        t2 = rng.choice([1, 2, 3])
+        v2 = nz(rng.choice([1, 2, 3, 4]))
+        chosen.append((i, t2, len(v2), v2))
+    rng.shuffle(chosen)
+    return b"".join(enc(*c) for c in chosen) + rng.choice([b"", b"\x00\x00", b"\x00\x00junk"])
+
+
+def hist_line(blk, raising, ops):
+    return f"hist {C.hx(blk)} {C.ints(raising)} {C.ints(ops)}"
+
+
+def gen_raising(rng):
+    r = rng.random()
+    if r < 0.8:
+        return []
+    if r < 0.95:
+        return rng.sample([14, 53, 8, 9, 11, 36, 16, 19, 7], rng.randrange(1, 4))
+    return [rng.choice([1, 2, 3, 75, 300])]
+
 
 class _GenTimeout(Exception):
     pass
@@ -424,6 +470,23 @@ def gen(tier, rng, shard, nshards):
             raising = [rng.choice([1, 2, 3, 75, 300, 37])]
         yield "views", f"views {C.hx(blk)} {C.ints(raising)}"
 
+    # ---- hist: every ordered pair of accesses on one object, (thorough: every ordered triple), random sequences
+    for a in range(N_OPS):
+        for b in range(N_OPS):
+            if not mine():
+                continue
+            for rep in range(6 if thorough else 2):
+                yield "hist", hist_line(gen_hist_block(rng), [] if rep == 0 else gen_raising(rng), [a, b])
+    if thorough:
+        for t in itertools.product(range(N_OPS), repeat=3):
+            if mine():
+                yield "hist", hist_line(gen_hist_block(rng), gen_raising(rng), list(t))
+    for _ in range((24000 if thorough else 2400) // nshards):
+        n = rng.randrange(2, 11)
+        ops = [rng.randrange(N_OPS) if rng.random() < 0.7 else rng.randrange(0, 4) for _ in range(n)]
+        blk = gen_hist_block(rng) if rng.random() < 0.8 else gen_block(rng, small=True)
+        yield "hist", hist_line(blk, gen_raising(rng), ops)
+
     # ---- real pretty functions (only inputs on which none of them raises)
     want = (6000 if thorough else 800) // nshards
     tries = 0
@@ -489,6 +552,93 @@ def _render_parsed_impl(c) -> str:
     return f"ok {len(items)} {body} | enums {C.ints(enums)} | max {mx}"
 
 
+class _Stubbed:
+    """Replace the *values* of SETTING_TO_PRETTYFUNC by tagging stubs (keys, order and dispatch untouched)."""
+
+    def __init__(self, raising):
+        self.raising = set(raising)
+
+    def __enter__(self):
+        table = B.SETTING_TO_PRETTYFUNC
+        self.saved = dict(table)
+        raising = self.raising
+        for key in list(table):
+            v = int(key.value)
+
+            def stub(x, v=v):
+                if v in raising:
+                    raise ValueError("stub")
+                return _Tagged(v, x)
+
+            table[key] = stub
+        return self
+
+    def __exit__(self, *exc):
+        table = B.SETTING_TO_PRETTYFUNC
+        table.clear()
+        table.update(self.saved)
+        return False
+
+
+_PROPS = ["raw_settings", "raw_settings_by_index", "settings", "settings_by_index"]
+_ATTRS = ["_raw_settings", "_raw_settings_by_index", "_settings", "_settings_by_index"]
+_VARS = {"config_block", "settings_tuple", "xorkey", "xorencoded", "pe_export_stamp", "pe_compile_stamp", "architecture",
+         "guardrails", "_settings", "_settings_by_index", "_raw_settings", "_raw_settings_by_index"}
+
+
+def _show_map_obj(m) -> str:
+    return "[" + ";".join(f"{_show_key(k)}={_show_val(v)}" for k, v in m.items()) + "]"
+
+
+def _do_op(c, k: int) -> str:
+    """canonical answer of access number k on the object c"""
+    if k < 16:
+        try:
+            if k < 4:
+                m = getattr(c, _PROPS[k])
+            else:
+                it, p, q = MAP_SPECS[k - 4]
+                m = c.settings_map(index_type=it, pretty=p, parse=q)
+        except Exception as e:  # noqa: BLE001
+            if type(e).__name__ == "Timeout":
+                raise
+            return "exc " + type(e).__name__
+        return _show_map_obj(m)
+    if k == 16:
+        return "enums " + C.ints(c.setting_enums)
+    if k == 17:
+        try:
+            return "max " + str(int(c.max_setting_enum))
+        except ValueError:
+            return "max exc ValueError"
+    items = [(int(s.index.value), int(s.type.value), int(s.length), bytes(s.value), isinstance(s.index, DBS)) for s in c.settings_tuple]
+    return f"tuple {len(items)} " + " ".join(f"{i}:{t}:{ln}:{'D' if d else 'B'}:{C.hx(v)}" for i, t, ln, v, d in items)
+
+
+def _history(blk: bytes, ops):
+    """answers of the accesses on ONE object + the state of the cache attributes; identity facts are asserted"""
+    from types import MappingProxyType
+
+    c = B.BeaconConfig(blk)
+    tup = c.settings_tuple
+    if set(vars(c)) != _VARS:
+        raise AssertionError("unexpected instance attributes " + ",".join(sorted(set(vars(c)) ^ _VARS)))
+    if any(getattr(c, a) is not None for a in _ATTRS):
+        raise AssertionError("cache attribute set before any access")
+    out = []
+    for k in ops:
+        r = _do_op(c, k)
+        out.append(r)
+        if k < 4 and not r.startswith("exc "):
+            first = getattr(c, _ATTRS[k])
+            if not isinstance(first, MappingProxyType) or getattr(c, _PROPS[k]) is not first:
+                raise AssertionError("cached property does not return its (read-only) cache object")
+    if c.settings_tuple is not tup or not isinstance(tup, tuple) or c.config_block != blk or set(vars(c)) != _VARS:
+        raise AssertionError("settings_tuple / config_block / attributes changed by an access")
+    cache = "".join("N" if getattr(c, a) is None else "M" for a in _ATTRS)
+    return out, cache
+
+
 def _maps(blk: bytes, show_item):
     def one(fn):
         try:
@@ -545,6 +695,10 @@ def _impl(stream, line):
             table.clear()
             table.update(saved)
         return " | ".join(combos + views)
+    if w[0] == "hist":
+        with _Stubbed(C.unints(w[2])):
+            out, cache = _history(blk, C.unints(w[3]))
+        return " || ".join(out) + " || cache " + cache
     if w[0] == "real":
         items = ref_decode(blk)
         out = []
@@ -578,6 +732,8 @@ def nontrivial(stream, line, out):
         return False
     if line.startswith("parse"):
         return not out.startswith("ok 0 ")
+    if line.startswith("hist"):
+        return "=" in out and "M" in out.rsplit(" ", 1)[-1]  # a cached property was filled before/among the accesses
     return "=" in out
 
 
@@ -593,6 +749,36 @@ def oracle(stream, line, out):
         return out == ref_maps(items, set(C.unints(w[2])), False)
     if w[0] == "real":
         return out == ref_maps(items, set(), True)
+    if w[0] == "hist":
+        if " || cache " not in out:
+            return False  # the whole history raised (watchdog, identity assertion)
+        raising, ops = set(C.unints(w[2])), C.unints(w[3])
+        steps = out.split(" || ") if ops else ["cache" + out.rsplit("cache", 1)[-1]]
+        if len(steps) != len(ops) + 1:
+            return False
+        ref16 = ref_maps(items, raising, False).split(" | ")
+        ref16 = ref16[12:] + ref16[:12]  # op numbering: the 4 properties first, then the 12 combinations
+        filled = ["N"] * 4
+        with _Stubbed(raising):
+            for k, got in zip(ops, steps):
+                fresh = _do_op(B.BeaconConfig(blk), k)  # the same access on a FRESH object
+                if got != fresh:
+                    return False
+                if k < 16:
+                    if got != ref16[k]:
+                        return False
+                    if k < 4 and not got.startswith("exc "):
+                        filled[k] = "M"
+                elif k == 16:
+                    if got != "enums " + C.ints([i for i, *_ in items]):
+                        return False
+                elif k == 17:
+                    if got != ("max " + str(max(i for i, *_ in items)) if items else "max exc ValueError"):
+                        return False
+                else:
+                    if got != f"tuple {len(items)} " + " ".join(f"{i}:{t}:{ln}:{'D' if d else 'B'}:{C.hx(v)}" for i, t, ln, v, d in items):
+                        return False
+        return steps[-1] == "cache " + "".join(filled)
     return None
 
 
